@@ -72,7 +72,8 @@ class _Helper:
         self.has_nested = any(isinstance(x, (ast.FunctionDef, ast.AsyncFunctionDef, ast.ClassDef, ast.Lambda, ast.Global, ast.Nonlocal))
                               for s in self.body for x in ast.walk(s))
         a = fn.args
-        self.ok_sig = not a.vararg and not a.kwarg and not a.posonlyargs and not fn.decorator_list
+        self.static = len(fn.decorator_list) == 1 and isinstance(fn.decorator_list[0], ast.Name) and fn.decorator_list[0].id == 'staticmethod'
+        self.ok_sig = not a.vararg and not a.kwarg and not a.posonlyargs and (not fn.decorator_list or self.static)
         self.params = [x.arg for x in a.args] + [x.arg for x in a.kwonlyargs]
         n_def = len(a.defaults)
         self.defaults: dict[str, ast.AST] = {}
@@ -195,7 +196,8 @@ class _Inliner(ast.NodeTransformer):
         if not isinstance(call, ast.Call):
             return None
         f = call.func
-        if isinstance(f, ast.Attribute) and isinstance(f.value, ast.Name) and f.value.id == 'self' and f.attr in self.helpers:
+        if isinstance(f, ast.Attribute) and isinstance(f.value, ast.Name) and f.attr in self.helpers and \
+                (f.value.id == 'self' or (self.helpers[f.attr].static and f.value.id == getattr(self.helpers[f.attr], 'owner', None))):
             h = self.helpers[f.attr]
             return h if h.fn is not self.caller else None
         if isinstance(f, ast.Name) and f.id in self.module_helpers:
@@ -372,9 +374,13 @@ def unhelper(tree: ast.Module, module: str) -> int:
         scopes: list[tuple[dict[str, _Helper], list[ast.FunctionDef]]] = [({}, [f for f in tree.body if isinstance(f, ast.FunctionDef)])]
         for c in tree.body:
             if isinstance(c, ast.ClassDef):
-                hs = {f.name: _Helper(f, True) for f in c.body
+                def _static(f: ast.FunctionDef) -> bool:
+                    return len(f.decorator_list) == 1 and isinstance(f.decorator_list[0], ast.Name) and f.decorator_list[0].id == 'staticmethod'
+                hs = {f.name: _Helper(f, not _static(f)) for f in c.body
                       if isinstance(f, ast.FunctionDef) and f'{module}:{c.name}.{f.name}' not in PINNED_FUNCTIONS and f.name.startswith('_') and
-                      not f.name.startswith('__') and f.args.args and f.args.args[0].arg == 'self'}
+                      not f.name.startswith('__') and (_static(f) or (f.args.args and f.args.args[0].arg == 'self'))}
+                for h in hs.values():
+                    h.owner = c.name
                 hs = {k: v for k, v in hs.items() if v.kind}
                 scopes.append((hs, [f for f in c.body if isinstance(f, ast.FunctionDef)]))
         for hs, fns in scopes:
